@@ -34,6 +34,9 @@ CHECKS.update({
    text="Invalid commands (wrong arity/sort, unbound names, unknown rulesets, ill-scoped rules, duplicate or ill-formed declarations, truncated text) are inserted at random positions of valid sessions on one EGraph; the specification classifies them as rejected: the engine must return an error value (a panic is recorded as data and reported), the logged database must equal the one before, probes that re-declare the rejected name must succeed, and the rest of the session must still be accepted."),
  "C10": dict(engine="EggAbs", technique="TLC invariants SchedLaws / SatIsFixpoint on MC_EggAbs (model program P5) + " + SESS_TECH, note=SESS_NOTE + "; delete-free programs", ref="6 (C10)",
    text="EggAbs.Sched is a transcription of run_schedule with RunReport.updated / can_stop (IterUpd computes `updated` as the engine does); TLC checks on every reachable database of model program P5 that law-related schedules give the same database, that a saturated schedule is a fixpoint and reports updated = false when re-run; the engine is bound to the interpreter by validating the database and the updated flag after every run-schedule command of nested repeat/saturate/seq/:until schedules, combined rulesets and rules declared late."),
+ "C07": dict(engine="Extract", technique="TLC: the extraction algorithm model (Extract!BF: Bellman-Ford + rank guard, saturating costs) checked against the reference least fixpoint MinCost on all small e-graphs and scan orders (MC_Extract) + replay of model e-graphs and counterexamples on the real extractor + TLC trace validation of every (extract ..) result (cost = MinCost, term in class, only usable rows, tree cost = reported cost, variants rooted at distinct e-nodes)",
+   note="bounded e-graphs (2-3 classes, 3-4 rows exhaustively; larger ones sampled); scaled u64 arithmetic (Huge = i64::MAX, Cap = u64::MAX); no containers; the algorithm model is bound to the code through extraction results only", ref="6 (C07)",
+   text="Extract.tla defines the reference (least fixpoint of the tree-additive cost over non-subsumed, extractable rows with saturating addition) and transcribes the algorithm; TLC checks CostIsMin, HasCostHasParent, ParentsWellFounded, TermCostIsCost on every e-graph and scan order at the bound, with and without saturating costs; the e-graphs (and the counterexamples found with saturation) are rebuilt on the real engine and every class extracted; the trace module recomputes MinCost on the logged rows and evaluates the returned terms in the logged e-graph."),
 })
 
 NA = {
